@@ -13,6 +13,12 @@ if prop.startswith("R2_"):
 elif prop.startswith("R3_"):
     srcname, prop = prop, prop[3:]
     letter = {"A": "E", "B": "F"}[srcletter]
+elif prop.startswith("R4_"):
+    srcname, prop = prop, prop[3:]
+    letter = {"A": "G", "B": "H"}[srcletter]
+elif prop.startswith("R5_"):
+    srcname, prop = prop, prop[3:]
+    letter = {"A": "I", "B": "J"}[srcletter]
 src = f"/tmp/seed_out/{srcname}/{srcletter}"
 dst = f"/verif/seeded/{prop}-{letter}"
 os.makedirs(dst, exist_ok=True)
